@@ -306,7 +306,7 @@ def race_runs(ctx):
 
 
 # ------------------------------------------------------------------ oracle 2: end to end
-def e2e(ctx, nchan, nbytes, compress, rekey, label):
+def e2e(ctx, nchan, nbytes, compress, rekey, label, id_offset=1):
     import paramiko
     from tests._loop import LoopSocket
 
@@ -339,6 +339,10 @@ def e2e(ctx, nchan, nbytes, compress, rekey, label):
         ts.start_server(ev, Srv())
         tc.start_client(timeout=LIMIT)
         tc.auth_none("u")
+        # local and remote channel ids must differ (and overlap across channels), otherwise a message addressed with
+        # the wrong one of the two ids still arrives: the client numbers its channels from `id_offset`
+        tc._channel_counter = id_offset
+        ctx.dist("e2e:client-id-offset=%d" % id_offset)
         plans = []
         for i in range(nchan):
             total = rng.choice([0, nbytes // 3, nbytes]) if i else nbytes
@@ -350,6 +354,10 @@ def e2e(ctx, nchan, nbytes, compress, rekey, label):
                 chunk = bytes((b & 0x7F) | (0x80 if stream == "err" else 0) for b in rng.randbytes(n))
                 writes.append((stream, chunk))
                 left -= n
+            if total and not any(st == "err" for st, _ in writes):
+                writes.append(("err", bytes(0x80 | (b & 0x7F) for b in rng.randbytes(5))))
+            if total and not any(st == "out" for st, _ in writes):
+                writes.append(("out", bytes(b & 0x7F for b in rng.randbytes(5))))
             plans.append({"writes": writes, "combine": rng.random() < 0.4, "status": rng.randrange(256),
                           "sizes": [rng.choice([1, 10, 512, 4096, 65536]) for _ in range(2)]})
         cchans, schans = [], []
@@ -423,6 +431,8 @@ def e2e(ctx, nchan, nbytes, compress, rekey, label):
                 out_got, err_got = b"".join(got[i]["out"]), b"".join(got[i]["err"])
                 case = {"e2e": label, "channel": i, "combine": p["combine"], "bytes": len(both),
                         "chunks": len(p["writes"])}
+                if cchans[i].get_id() == schans[i].get_id():
+                    raise InfraError("C21 e2e: local and remote channel ids coincide")
                 ctx.case(("e2e", label, i, len(both), p["combine"]), len(p["writes"]) > 1)
                 ctx.dist("e2e-channel:" + ("combined" if p["combine"] else "plain"))
                 if p["combine"]:
@@ -531,11 +541,11 @@ def run(ctx):
     # ---- end to end
     if ctx.thorough:
         e2e(ctx, 8, 512 * 1024, True, 2, "8x512KiB+zlib+rekey")
-        e2e(ctx, 8, 512 * 1024, False, 1, "8x512KiB+rekey")
-        e2e(ctx, 4, 100000, False, 0, "4x100k")
+        e2e(ctx, 8, 512 * 1024, False, 1, "8x512KiB+rekey", id_offset=3)
+        e2e(ctx, 4, 100000, False, 0, "4x100k", id_offset=40)
     else:
         e2e(ctx, 3, 64 * 1024, False, 0, "3x64KiB")
-        e2e(ctx, 3, 20000, True, 1, "3x20k+zlib+rekey")
+        e2e(ctx, 3, 20000, True, 1, "3x20k+zlib+rekey", id_offset=7)
 
 
 META = {
